@@ -49,7 +49,7 @@ def gen_opts(rng):
 def gen_perturbation(rng, nalloc):
     """A perturbed plan as a dict of dimensions; absent dimension = canonical."""
     p = {}
-    dims = ["gc", "heapbase", "stackpad", "envpad", "wash", "clock", "pid", "env", "cwd", "gcenv", "inodes", "image"]
+    dims = ["gc", "heapbase", "stackpad", "envpad", "wash", "clock", "pid", "env", "cwd", "gcenv", "inodes", "image", "mmaps"]
     on = [d for d in dims if rng.chance(1, 2)]
     if not on:
         on = [rng.choice(dims)]
@@ -104,6 +104,8 @@ def gen_perturbation(rng, nalloc):
         p["inodes"] = rng.choice(["collide16", "collide16", "collide8", "huge"])
     if "image" in on:
         p["image"] = "b"	# the same objects linked at another address
+    if "mmaps" in on:
+        p["mmaps"] = rng.choice([3, 26, 40, 200])	# further writable mappings in the process
     if "gcenv" in on:
         e = {}
         for v, vals in (("GC_GEFN", ["1", "3", "7"]), ("GC_GEFD", ["10", "8"]), ("GC_GGFN", ["12", "14", "20"]), ("GC_GGFD", ["10"]), ("GC_FRUGAL", ["1"])):
@@ -127,6 +129,8 @@ def plan_lines(p):
     out += p.get("gc", [])
     if "inodes" in p:
         out.append("fs inodes " + p["inodes"])
+    if "mmaps" in p:
+        out.append("mmaps %d" % p["mmaps"])
     return out
 
 
